@@ -194,10 +194,12 @@ class Merged:
         self.cover = {}
         self.shards = 0
 
-    def add(self, res, hashes, optimized=False):
+    def add(self, res, hashes, mode=""):
         self.shards += 1
-        if optimized:
+        if mode == "O":
             self.counters["shards_run_under_python_O"] += 1
+        elif mode == "K":
+            self.counters["shards_run_with_keyword_calls_and_debug_logging"] += 1
         self.counters.update(res["counters"])
         self.evaluations += res["evaluations"]
         self.distinct_capped |= res["distinct_capped"]
@@ -213,7 +215,7 @@ class Merged:
             cur = self.violations.get(v["key"])
             if cur is None:
                 if len(self.violations) < MAX_VIOLATION_KEYS:
-                    self.violations[v["key"]] = dict(v, python_optimize=optimized)
+                    self.violations[v["key"]] = dict(v, process_mode=mode)
             else:
                 cur["count"] += v["count"]
         for r in res["inconclusive"]:
@@ -255,6 +257,10 @@ def _shard_main(mod, prop, tier, seed, index, out):
     plan = mod.plan(tier, seed)
     ctx = run_shard(mod, prop, tier, seed, index, plan[index])
     res = ctx.result()
+    from vlib import procmode
+    if procmode.MODE == "K":
+        for k, v in procmode.counts.items():
+            res["counters"]["mode K: " + k] = v
     try:
         text = json.dumps(res)
     except (RecursionError, ValueError, TypeError):
@@ -282,13 +288,18 @@ def _read_hashes(path):
     return a
 
 
-def _optimized_shard(i):
-    return i % 3 == 2
+def _shard_mode(i):
+    """'' (the usual process), 'O' (python -O) or 'K' (keyword call style + DEBUG logging, see vlib/procmode.py)."""
+    return {2: "O", 3: "K"}.get(i % 4, "")
 
 
-def _spawn_shard(prop, tier, i, out, optimized):
-    return subprocess.Popen([sys.executable] + (["-O"] if optimized else []) + ["-B", "-m", "vlib.runner", prop, "--tier", tier,
-                                                                               "--shard", str(i), "--out", out], cwd=VERIF,
+def _spawn_shard(prop, tier, i, out, mode):
+    env = dict(os.environ)
+    env.pop("VERIF_PROCESS_MODE", None)
+    if mode == "K":
+        env["VERIF_PROCESS_MODE"] = "K"
+    return subprocess.Popen([sys.executable] + (["-O"] if mode == "O" else []) + ["-B", "-m", "vlib.runner", prop, "--tier", tier,
+                                                                                "--shard", str(i), "--out", out], cwd=VERIF, env=env,
                             stdout=subprocess.DEVNULL, stderr=subprocess.PIPE)
 
 
@@ -301,9 +312,9 @@ def _run_parallel(prop, tier, nshards, merged, jobs, shard_timeout):
             while pending and len(running) < jobs:
                 i = pending.pop(0)
                 out = os.path.join(tmp, f"shard{i}.json")
-                # (every third shard runs under an optimising interpreter, python -O, as production deployments do: assert statements
-                # and __debug__ blocks of the tree under test are compiled away there)
-                p = _spawn_shard(prop, tier, i, out, optimized=_optimized_shard(i))
+                # (one shard in four runs under an optimising interpreter, python -O, as production deployments do; one in four calls
+                # the library by keyword with DEBUG logging on - vlib/procmode.py)
+                p = _spawn_shard(prop, tier, i, out, _shard_mode(i))
                 running[i] = (p, out, time.time())
             time.sleep(0.05)
             for i in list(running):
@@ -323,7 +334,7 @@ def _run_parallel(prop, tier, nshards, merged, jobs, shard_timeout):
                     continue
                 with open(out) as f:
                     res = json.load(f)
-                merged.add(res, _read_hashes(out + ".hashes"), optimized=_optimized_shard(i))
+                merged.add(res, _read_hashes(out + ".hashes"), mode=_shard_mode(i))
                 os.unlink(out)
                 try:
                     os.unlink(out + ".hashes")
@@ -342,8 +353,8 @@ def _write_replay(prop, v, tier, seed):
     tag = hashlib.sha256(v["key"].encode("utf-8", "replace")).hexdigest()[:12]
     path = os.path.join(OUT, "replays", f"{prop}-{tag}.json")
     rec = {"property": prop, "key": v["key"], "msg": v["msg"], "count": v["count"], "tier": tier, "seed": seed, "witness": v["witness"]}
-    if v.get("python_optimize"):
-        rec["python_optimize"] = True       # first seen in a shard that ran under python -O: the replay runs there too
+    if v.get("process_mode"):
+        rec["process_mode"] = v["process_mode"]       # first seen in a side shard (python -O / keyword calls): the replay runs there too
     try:
         text = json.dumps(rec, indent=1, default=repr)
     except (RecursionError, ValueError, TypeError) as e:
@@ -377,6 +388,9 @@ def main(argv=None):
     t0 = time.time()
     try:
         srcroot.activate()
+        from vlib import procmode
+        if procmode.MODE == "K":
+            procmode.install()
         mod = importlib.import_module(f"vlib.checks.{prop.lower()}")
     except SystemExit:
         raise
@@ -394,8 +408,12 @@ def main(argv=None):
     if args.replay:
         with open(args.replay) as f:
             rec = json.load(f)
-        if rec.get("python_optimize") and not sys.flags.optimize:
+        want = rec.get("process_mode") or ("O" if rec.get("python_optimize") else "")
+        if want == "O" and not sys.flags.optimize:
             os.execv(sys.executable, [sys.executable, "-O", "-B", "-m", "vlib.runner"] + list(sys.argv[1:] if argv is None else argv))
+        if want == "K" and os.environ.get("VERIF_PROCESS_MODE") != "K":
+            os.execve(sys.executable, [sys.executable, "-B", "-m", "vlib.runner"] + list(sys.argv[1:] if argv is None else argv),
+                      dict(os.environ, VERIF_PROCESS_MODE="K"))
         ctx = Ctx(prop, args.tier, seed, "replay")
         ctx.replaying = True
         _limit_memory()
@@ -413,31 +431,32 @@ def main(argv=None):
         _limit_memory()
         plan = mod.plan(tier, seed)
         if tier == "quick" or len(plan) == 1 or args.jobs <= 1:
-            side = None
-            if args.jobs > 1 and not os.environ.get("VERIF_NO_OPTIMIZED_SHARD"):
-                # beside the in-process run, shard 0 once more in a child under an optimising interpreter (python -O)
-                side_dir = tempfile.mkdtemp(prefix=f"vcheck-{prop}-O-")
-                side_out = os.path.join(side_dir, "shard0.json")
-                side = (_spawn_shard(prop, tier, 0, side_out, optimized=True), side_out, side_dir)
+            sides = []
+            if args.jobs > 1 and not os.environ.get("VERIF_NO_SIDE_SHARDS"):
+                # beside the in-process run, shard 0 once more in two children: under an optimising interpreter (python -O), and with
+                # keyword-style calls and DEBUG logging (vlib/procmode.py)
+                for mode in ("O", "K"):
+                    side_dir = tempfile.mkdtemp(prefix=f"vcheck-{prop}-{mode}-")
+                    side_out = os.path.join(side_dir, "shard0.json")
+                    sides.append((mode, _spawn_shard(prop, tier, 0, side_out, mode), side_out, side_dir))
             for i, params in enumerate(plan):
                 ctx = run_shard(mod, prop, tier, seed, i, params)
                 merged.add(ctx.result(), ctx._distinct)
-            if side is not None:
-                p, side_out, side_dir = side
+            for mode, p, side_out, side_dir in sides:
                 try:
                     try:
                         p.wait(timeout=float(os.environ.get("VERIF_SHARD_TIMEOUT") or 3600))
                     except subprocess.TimeoutExpired:
                         p.kill()
                         p.wait()
-                        merged.inconclusive_because("shard under python -O: wall-clock watchdog fired")
+                        merged.inconclusive_because(f"side shard (mode {mode}): wall-clock watchdog fired")
                     else:
                         err = p.stderr.read().decode("utf-8", "replace")
                         if p.returncode != 0 or not os.path.exists(side_out):
-                            merged.inconclusive_because(f"shard under python -O: process ended with status {p.returncode}: {err[-800:]}")
+                            merged.inconclusive_because(f"side shard (mode {mode}): process ended with status {p.returncode}: {err[-800:]}")
                         else:
                             with open(side_out) as f:
-                                merged.add(json.load(f), _read_hashes(side_out + ".hashes"), optimized=True)
+                                merged.add(json.load(f), _read_hashes(side_out + ".hashes"), mode=mode)
                 finally:
                     for f_ in os.listdir(side_dir):
                         os.unlink(os.path.join(side_dir, f_))
